@@ -50,6 +50,7 @@ br_rsa_oaep_pad(const br_prng_class **rnd, const br_hash_class *dig,
 {
 	size_t k, hlen;
 	unsigned char *buf;
+	const unsigned char *nbuf;
 
 	hlen = br_digest_size(dig);
 
@@ -57,7 +58,9 @@ br_rsa_oaep_pad(const br_prng_class **rnd, const br_hash_class *dig,
 	 * Compute actual modulus length (in bytes).
 	 */
 	k = pk->nlen;
-	while (k > 0 && pk->n[k - 1] == 0) {
+	nbuf = pk->n;
+	while (k > 0 && *nbuf == 0) {
+		nbuf ++;
 		k --;
 	}
 
